@@ -96,6 +96,7 @@ fn main() {
                 dst_name: "dst.bin".into(),
                 requests: vec![],
                 messages: vec![],
+                forget: false,
             });
             if let Some(d) = args.iter().position(|a| a == "drop") {
                 let dir: usize = args[d + 1].parse().unwrap();
